@@ -143,10 +143,12 @@ Lemma run_ok c : forall os s sp,
   map res_class (fst (run_model c s os)) = fst (run_spec sp os) /\
   s_abs (snd (run_model c s os)) = sp_log (snd (run_spec sp os)) /\
   s_kv (snd (run_model c s os)) = sp_kv (snd (run_spec sp os)) /\
-  SInv c (snd (run_model c s os)).
+  SInv c (snd (run_model c s os)) /\
+  s_nid (snd (run_model c s os)) <= s_nid s + 2 * N.of_nat (length os).
 Proof.
   induction os as [|o os IH]; intros s sp Hc Hops HS Hnid Hlog Hkv.
-  - cbn [run_model run_spec fst snd map]. split; [reflexivity|]. split; [auto|]. split; [auto|exact HS].
+  - cbn [run_model run_spec fst snd map]. split; [reflexivity|]. split; [auto|]. split; [auto|].
+    split; [exact HS|lia].
   - inversion Hops as [|? ? Hop Hops']; subst. cbn [run_model run_spec].
     destruct (step_model c s o) as [r s1] eqn:Estep.
     cbn [length] in Hnid.
@@ -154,7 +156,8 @@ Proof.
     destruct (step_spec sp o) as [r' sp1]. cbn [fst snd] in *.
     specialize (IH s1 sp1 Hc Hops' HS1 ltac:(lia) (eq_sym Ha) (eq_sym Hk)).
     destruct (run_model c s1 os) as [rs s2]. destruct (run_spec sp1 os) as [rs' sp2]. cbn [fst snd map] in *.
-    destruct IH as (I1 & I2 & I3 & I4). split; [congruence|]. split; [exact I2|]. split; [exact I3|exact I4].
+    destruct IH as (I1 & I2 & I3 & I4 & I5). split; [congruence|]. split; [exact I2|]. split; [exact I3|].
+    split; [exact I4|cbn [length]; lia].
 Qed.
 
 Theorem seq_refinement : seq_refinement_stmt.
@@ -165,4 +168,34 @@ Proof.
   destruct (run_model c s0 os) as [rs s1]. destruct (run_spec _ os) as [rs' sp1]. cbn [fst snd] in H.
   destruct H as (H1 & H2 & H3 & _); auto.
   rewrite Hid. unfold short_enough in Hshort. unfold two64. lia.
+Qed.
+
+(* what is known about every state a history reaches *)
+Definition spec_init : spst := {| sp_log := sl_empty; sp_kv := [] |}.
+
+Lemma reach_inv c os s0 :
+  cfg_ok c -> Forall sop_ok os -> short_enough os -> initial c = Some s0 ->
+  let s1 := snd (run_model c s0 os) in
+  SInv c s1 /\ s_nid s1 + 2 < two64 /\
+  s_abs s1 = sp_log (snd (run_spec spec_init os)) /\ s_kv s1 = sp_kv (snd (run_spec spec_init os)).
+Proof.
+  intros Hc Hops Hshort Hinit. cbv zeta.
+  destruct (initial_inv c s0 Hc Hinit) as (HS & Ha & Hk & Hid & _).
+  unfold short_enough in Hshort.
+  destruct (run_ok c os s0 spec_init Hc Hops HS) as (_ & H2 & H3 & H4 & H5); auto.
+  { rewrite Hid. unfold two64. lia. }
+  rewrite Hid in H5. split; [exact H4|]. split; [unfold two64; lia|]. split; assumption.
+Qed.
+
+Lemma step_reach c s o :
+  cfg_ok c -> sop_ok o -> SInv c s -> s_nid s + 2 < two64 ->
+  let sp := {| sp_log := s_abs s; sp_kv := s_kv s |} in
+  SInv c (snd (step_model c s o)) /\
+  res_class (fst (step_model c s o)) = fst (step_spec sp o) /\
+  s_abs (snd (step_model c s o)) = sp_log (snd (step_spec sp o)) /\
+  s_kv (snd (step_model c s o)) = sp_kv (snd (step_spec sp o)).
+Proof.
+  intros Hc Hop HS Hnid sp. destruct (step_model c s o) as [r s'] eqn:E.
+  destruct (step_ok c s o sp r s' Hc Hop HS Hnid eq_refl eq_refl E) as (H1 & H2 & H3 & H4 & _).
+  cbn [fst snd]. auto.
 Qed.
